@@ -136,6 +136,10 @@ contract('schema.BaseParser.start_key', params={'attrs': ATTRS}, requires=[TOP_I
                          label='new-key-info-pushed'),
                   Clause("not (required_of(attrs) and 'default' in attrs)", carries='C10',
                          label='no-default-attribute-on-a-required-key'),
+                  Clause("implies(cast(self._stack[-1], 'info.KeyInfo').name != '+', "
+                         "('default' in attrs) == is_alt(cast(self._stack[-1], 'info.KeyInfo')._default, 'vi') and "
+                         "implies('default' in attrs, alt(cast(self._stack[-1], 'info.KeyInfo')._default, 'vi').value == attrs['default'].strip()))",
+                         carries='C02,C10', label='a-default-attribute-also-an-empty-one-is-the-default-of-the-key'),
                   Clause("%s._children == old(%s._children) + [(cast(self._stack[-1], 'info.KeyInfo').name, "
                          "cast(self._stack[-1], 'info.BaseInfo'))]" % (OLD_TOP, OLD_TOP), carries='C10,C11',
                          label='key-added-to-the-enclosing-type-in-document-order'),
